@@ -369,8 +369,8 @@ def plan(tier, seed, workdir):
     body += hgen.harness('addsub', 'k: int, yi: int', ['0 <= k < 25', '0 <= yi < 8'], core_call='core_addsub(k, yi)')
     path = hgen.write_module(workdir, 'c16_addsub', body)
     hgen.ch_tasks(p, path, 'addsub', timeout, est=60, family='E1 (d + n ms) - d == n', enum={'k': list(range(25)), 'yi': list(range(8))})
-    p.rule = ('3 z3 lemmas on the real AST of datetimeNew (carry chain for all integers; inductive step of each day loop; uniqueness of the '
-              'civil representation) + CrossHair conditions with one symbolic component each + add/subtract over a solver-indexed pool')
+    p.rule = ('5 z3 lemmas: on the real AST of datetimeNew (carry chain for all integers; inductive step of each day loop; uniqueness of the '
+              'civil representation), the rounding of datetime subtraction (relative-error model from the AST) and the ISO text regexes; CrossHair conditions with one symbolic component each + add/subtract over a solver-indexed pool')
     p.bounds = ['E2: all integers for the carry chain; loops: arbitrary state with 1<=month<=12, years 1..9999',
                 'E1: one component symbolic per condition over the stated range, year from a small pool incl. 1900/2000/2100/2400',
                 'millisecond offsets from a 25-element pool up to +-1e12']
